@@ -2,7 +2,7 @@
    Only statements, [exact] and [Print Assumptions] live here. *)
 From Coq Require Import List Arith Bool NArith.
 From GV Require Import Base.Result Gen.TokenTypes Gen.Defs Gen.Instr Model.Parser Model.BuilderWL Model.Compile
-  Spec.WfCode Proofs.C05.Known Proofs.C05.WfSound Proofs.C05.Bounded Proofs.C05.Refuted Proofs.C05.Operands.
+  Spec.WfCode Proofs.C05.Known Proofs.C05.WfSound Proofs.C05.Bounded Proofs.C05.Refuted Proofs.C05.Operands Proofs.C05.Jumps Proofs.C05.Bodies.
 Import ListNotations.
 
 (* the executable checker (run natively on every real instruction stream by the
@@ -97,6 +97,22 @@ Definition C05_full_statement : Prop :=
     ~ Known_C05_K1 init t -> ~ Known_C05_K2 t ->
     compile init lit t = Ok r ->
     wf_code nodes init (code_of_compile r).
+
+(* ... proved by induction on the tree with the pending-bodies invariant
+   (Proofs/C05/Operands.v, Jumps.v, Bodies.v): every placeholder pushed is owned
+   by a body on root_stack or an arm registered with an else-chain head, every
+   such body is emitted and patches it, every body that is emitted adds at
+   least one instruction and ends in a terminator *)
+Theorem C05_full : C05_full_statement.
+Proof.
+  intros nodes root t init lit r Ht Hk1 Hk2 Hc.
+  apply (compile_wf init lit nodes t r (tree_of_in nodes root t Ht)); [| | exact Hc].
+  - split.
+    + destruct (drops_arms t) eqn:E; [exfalso; apply Hk2; exact E | reflexivity].
+    + destruct (has_empty_body t) eqn:E; [exfalso; apply Hk1; left; exact E | reflexivity].
+  - destruct (empty_after_end init t) eqn:E; [exfalso; apply Hk1; right; exact E | reflexivity].
+Qed.
+Print Assumptions C05_full.
 
 (* non-vacuity: a program with a conditional, a logical operator and a nested
    expression is accepted, is in no excluded class, and is well-formed *)
